@@ -127,8 +127,26 @@ func (fr *Frame) instr(ins ssa.Instruction) {
 	case *ssa.Next:
 		fr.next(x)
 	case *ssa.RunDefers:
-		// no Defer instruction is accepted, so this is a no-op
-	case *ssa.Defer, *ssa.Go, *ssa.Select, *ssa.Send:
+		// the deferred calls recorded on this path run in reverse order; each one only if its defer
+		// statement was executed (its path condition)
+		for i := len(fr.deferred) - 1; i >= 0; i-- {
+			d := fr.deferred[i]
+			before := fr.cur.clone()
+			saved := fr.curPC
+			fr.curPC = enc.define("pc_defer", "Bool", And(saved, d.pc))
+			fr.call(d.ins, &d.ins.Call)
+			after := fr.cur
+			fr.cur = enc.mergeStates([]*State{after, before}, []*Term{d.pc, Not(d.pc)})
+			fr.curPC = saved
+		}
+	case *ssa.Defer:
+		for _, l := range fr.loops {
+			if l.body[fr.curBlock.Index] {
+				enc.unsup("%s: defer inside a loop", fr.fn.Name())
+			}
+		}
+		fr.deferred = append(fr.deferred, deferredCall{ins: x, pc: pc})
+	case *ssa.Go, *ssa.Select, *ssa.Send:
 		enc.unsup("%s: instruction %T outside the modelled subset", fr.fn.Name(), ins)
 	case *ssa.Panic:
 		enc.oblige("safety:panic", fr.where(x), "explicit panic reachable", nil, pc, tFalse)
